@@ -30,7 +30,7 @@ import (
 func FamilyAtoms(prop string, quick bool, pick func(n int) int) (out []OutsideAtom) {
 	eff, str, nam, ty, ifi, bod := effectOnceAtoms(), append(stringLiteralAtoms(), literalSpellingAtoms()...), namedLikeAtoms(), typeNestingAtoms(), ifInitAtoms(), bodyShapeAtoms()
 	rej := rejectedConstructFamilies()
-	r9 := Round9Families()
+	r9 := append(Round9Families(), Round10Families()...)
 	if quick {
 		// the dimensions of these families are independent of where the statement stands: two positions
 		for i := range r9 {
